@@ -138,6 +138,38 @@ def gen_opt_case(rng, obs, tier):
     return c
 
 
+def exhaustive_cases(rng, obs, maxlen=3):
+    """C15's quantifier: "exhaustively for all operation sequences up to a small bound on small vehicle sets": three
+    vehicles, every sequence of at most [maxlen] operations over the alphabet move / remove / add-to-own-cycle /
+    add-at-the-end / create (new_fast) / optimise"""
+    base = None
+    for _ in range(20):
+        base = gen_case(rng, obs, "thorough", nveh=3)
+        if base and len(base["paths"]) == 3:
+            break
+    if not base or len(base["paths"]) != 3:
+        return []
+    vs = ["veh_0", "veh_1", "veh_2"]
+    alphabet = [["new"], ["optimise"]]
+    for v in vs:
+        alphabet.append(["remove", v])
+        alphabet.append(["addown", v])
+        for k in range(4):
+            alphabet.append(["move", v, k])
+            alphabet.append(["addend", v, k])
+    seqs = [[]]
+    out = []
+    for _ in range(maxlen):
+        seqs = [q + [a] for q in seqs for a in alphabet]
+        out += seqs
+    return [{"ty": base["ty"], "paths": base["paths"], "tops": q} for q in out]
+
+
+def run_exhaustive(args):
+    d, k, inst, c = args
+    return run_trans(d, k, inst, c)
+
+
 def encode_case(c):
     out = [str(c["ty"]), str(len(c["paths"]))]
     for p in c["paths"]:
@@ -243,6 +275,17 @@ def main(tier, seed):
     for k, c in enumerate(lib.load_corpus_cases(PID)):
         results.append(run_trans(d, k, c["instance"], c))
     results += [r for r in lib.pmap(run_case, [(d, 1000 + k, inst, seed, tier) for k, inst in enumerate(gen)]) if r]
+    nexh = 0
+    if tier == "thorough" and not os.environ.get("VERIF_REPLAY"):
+        xrng = random.Random(seed * 31 + 5)
+        for j in range(2):
+            inst = instgen.gen_instance(xrng, {"slots": "some", "depots": "ample", "maxdist": "small", "ntypes": 1})
+            obs, _ = netobs.observe(inst, d, "x%d" % j)
+            if not obs.ok:
+                continue
+            xs = exhaustive_cases(xrng, obs)
+            nexh += len(xs)
+            results += [r for r in lib.pmap(run_exhaustive, [(d, 200000 + j * 100000 + k, inst, c) for k, c in enumerate(xs)]) if r]
     # plus: every transition produced in the solve pipeline (stage snapshots) must satisfy the invariant and the
     # optimiser must not worsen (violation, counter) nor change the vehicle set
     pres = lib.pmap(lambda a: solve.run_solve(d, "p%d" % a[0], a[1]),
@@ -275,7 +318,9 @@ def main(tier, seed):
                            strip_model_prefixes=("TINV ", "ICHK ", "TOS "),
                            what="Transition after each rotation-cycle operation: cycles, counters, totals, successor, "
                                 "lookup table and empty-cycle list (hook); TInv on model and implementation states",
-                           extra_cov={"operation_outcomes": op_hist(results),
+                           extra_cov={"operation_outcomes": op_hist(results), "exhaustive_sequences": nexh,
+                                      "exhaustive_note": "thorough tier: all sequences of <= 3 operations over three "
+                                      "vehicles (alphabet of 32 operations) on two instances",
                                       "pipeline_runs": len(pres), "pipeline_transitions_checked": pipeline_transitions,
                                       "pipeline_failures": len(extra_bad)},
                            check_pair=check_pair, extra_violations=extra_bad)
